@@ -13,9 +13,11 @@ A unit template (vf/units/<unit>.rs) is ordinary Verus text plus directive lines
   //@ BEFORE[#n] / //@ AT / //@ ENDBEFORE   text inserted before the n-th occurrence of the
   //@ AFTER[#n] / //@ AT / //@ ENDAFTER     token sequence given between the marker and AT
   //@ SUBST <rule>[#n|*] / //@ WITH / //@ ENDSUBST  token-sequence replacement (R3..R7,R9)
+  //@ BYTESTR                        R2: every byte-string literal b".." becomes `&[b0, b1, ..]` (same bytes, readable by Verus)
   //@ BODYONLY                       emit only the statements of the body (for R7 block lifts,
   //@                                together with FROM/TO anchors)
   //@ FROM / //@ ENDFROM, //@ TO / //@ ENDTO    first / last statement anchors of a block lift
+  //@ TOSTMT                         instead of TO: the block is the single statement that begins with the FROM tokens
   //@ STRIPATTRS                     (default for all items) remove #[..] attributes and docs (R1)
   //@END
 
@@ -224,6 +226,8 @@ class Extractor:
                 d["maporelse"] = True
             elif k == "BODYONLY":
                 d["bodyonly"] = True
+            elif k == "BYTESTR":
+                d["bytestr"] = True
             elif k == "RENAME":
                 d["rename"] = w[1]
             elif k == "SPEC":
@@ -278,6 +282,8 @@ class Extractor:
             elif k == "TOCLOSE":
                 d["to"], _ = grab(["ENDTOCLOSE"])
                 d["to_close"] = True
+            elif k == "TOSTMT":
+                d["to_stmt"] = True
             else:
                 raise UnitError("unknown directive %r" % s)
             i += 1
@@ -446,6 +452,20 @@ class Extractor:
                     # generic commas inside <..> are not tracked by the table: only split at depth of the body
                     at_field_start = self._angle_depth0(toks, body_lo + 1, q)
                 q += 1
+
+        # R2: byte-string literals spelled as the reference to the array of their bytes (Verus keeps the contents of b".." opaque)
+        if d.get("bytestr"):
+            import ast
+            for q in range(a, b + 1):
+                t = toks[q]
+                if t.text.startswith('b"') and t.text.endswith('"'):
+                    try:
+                        val = ast.literal_eval(t.text)
+                    except Exception:
+                        raise UnitError("BYTESTR: cannot decode %s" % t.text)
+                    s0, s1 = t.start - base, t.end - base
+                    pieces.append(Piece(s0, s1, "&[" + ", ".join("%du8" % c for c in val) + "]", "subst", old=orig[s0:s1], rule="R2"))
+                    bump("R2")
 
         # substitutions
         for (rule, occ, allocc, old, new) in d["substs"]:
@@ -1013,9 +1033,23 @@ class Extractor:
         cut_lo = cut_hi = None
         if d["frm"] is not None or d["bodyonly"]:
             if d["frm"] is not None:
-                wf, wt = token_texts(d["frm"]), token_texts(d["to"])
+                wf = token_texts(d["frm"])
                 hf = find_seq(toks, wf, body_lo, body_hi)
-                ht = find_seq(toks, wt, body_lo, body_hi)
+                if d.get("to_stmt"):
+                    # the block is the one statement that starts with the FROM tokens: up to its `;` (nesting skipped)
+                    if len(hf) != 1:
+                        raise LostAnchor("%s: statement anchor matches %d times in %s" % (rel, len(hf), name))
+                    q = hf[0]
+                    while q < body_hi and toks[q].text != ";":
+                        if toks[q].kind == "punct" and toks[q].text in "([{" and q in src.tbl:
+                            q = src.tbl[q]
+                        q += 1
+                    if q >= body_hi:
+                        raise LostAnchor("%s: statement anchor in %s has no terminating `;`" % (rel, name))
+                    ht, wt = [q], [";"]
+                else:
+                    wt = token_texts(d["to"])
+                    ht = find_seq(toks, wt, body_lo, body_hi)
                 if len(hf) != 1 or len(ht) != 1:
                     raise LostAnchor("%s: block anchors match %d/%d times in %s" % (rel, len(hf), len(ht), name))
                 cut_lo = (toks[hf[0] + len(wf) - 1].end - base) if d["frm_after"] else (toks[hf[0]].start - base)
